@@ -372,6 +372,24 @@ func c12RunGuardsAs(c *eng.Ctx, r *eng.Report, run *ssa.Function, rule string) b
 			if !ok || p.Succs[0] != b {
 				continue
 			}
+			// the test extracted into a predicate of the package: decided inside the predicate
+			if call, isCall := iff.Cond.(*ssa.Call); isCall && iff.Block().Dominates(exec.Block()) {
+				if h := call.Call.StaticCallee(); h != nil && h.Pkg == run.Pkg && h.Blocks != nil {
+					sameRow := false
+					for _, a := range call.Call.Args {
+						if eng.Desc(a)+".execute" == eng.Desc(exec.(ssa.CallInstruction).Common().Value) {
+							sameRow = true
+						}
+					}
+					if sameRow && c12PredicateTrueWhen(h, true, false) {
+						writesGuard = true
+					}
+					if c12PredicateTrueWhen(h, false, true) {
+						callGuard = true
+					}
+					continue
+				}
+			}
 			conds := append(eng.EdgeConds(p), eng.Cond{V: iff.Cond, True: true, If: iff})
 			hasRO, hasWrites, hasCall, hasSign := false, false, false, false
 			roDominates := false
@@ -913,4 +931,86 @@ func revertsWhenErr(h *ssa.Function) (snapIdx, errIdx int, ok bool) {
 		}
 	}
 	return snapIdx, errIdx, true
+}
+
+// c12PredicateTrueWhen decides a boolean helper of the interpreter: on every
+// path on which readOnly holds and (needWrites: the row's writes flag holds /
+// needCall: the opcode is CALL) the helper returns true — or, for needCall, the
+// very test "third stack item is non-zero". Paths over an edge that contradicts
+// the assumption are not followed. Anything not understood answers false.
+func c12PredicateTrueWhen(h *ssa.Function, needWrites, needCall bool) bool {
+	contradicts := func(b *ssa.BasicBlock, succ int) bool {
+		iff, ok := b.Instrs[len(b.Instrs)-1].(*ssa.If)
+		if !ok {
+			return false
+		}
+		v, taken := iff.Cond, succ == 0
+		for {
+			u, isU := v.(*ssa.UnOp)
+			if !isU || u.Op != token.NOT {
+				break
+			}
+			v, taken = u.X, !taken
+		}
+		d := eng.Desc(v)
+		if strings.HasSuffix(d, ".readOnly") && !taken {
+			return true
+		}
+		if needWrites && strings.HasSuffix(d, ".writes") && !taken {
+			return true
+		}
+		if needCall {
+			if m, isM := (eng.Cond{V: v, True: taken, If: iff}).Cmp(); isM && m.Op == token.NEQ {
+				if k, isK := eng.ConstInt(m.Y); isK && k == 0xf1 {
+					return true
+				}
+			}
+		}
+		return false
+	}
+	isValueTest := func(v ssa.Value) bool {
+		m, ok := eng.DecodeCmp(v)
+		return ok && needCall && m.Op == token.NEQ && strings.Contains(eng.Desc(m.X), "Back(") && strings.Contains(eng.Desc(m.X), ",2)") && strings.Contains(eng.Desc(m.X), ".Sign(")
+	}
+	type edge struct{ from, to *ssa.BasicBlock }
+	seen := map[*ssa.BasicBlock]map[*ssa.BasicBlock]bool{}
+	queue := []edge{{nil, h.Blocks[0]}}
+	sawReturn := false
+	for len(queue) > 0 {
+		e := queue[0]
+		queue = queue[1:]
+		if seen[e.to] == nil {
+			seen[e.to] = map[*ssa.BasicBlock]bool{}
+		}
+		if seen[e.to][e.from] {
+			continue
+		}
+		seen[e.to][e.from] = true
+		b := e.to
+		if ret, ok := b.Instrs[len(b.Instrs)-1].(*ssa.Return); ok {
+			if len(ret.Results) != 1 {
+				return false
+			}
+			v := ret.Results[0]
+			if phi, isPhi := v.(*ssa.Phi); isPhi && phi.Block() == b && e.from != nil {
+				for i, p := range b.Preds {
+					if p == e.from {
+						v = phi.Edges[i]
+					}
+				}
+			}
+			k, isK := v.(*ssa.Const)
+			if !(isK && k.Value != nil && k.Value.ExactString() == "true") && !isValueTest(v) {
+				return false
+			}
+			sawReturn = true
+			continue
+		}
+		for i, s := range b.Succs {
+			if !contradicts(b, i) {
+				queue = append(queue, edge{b, s})
+			}
+		}
+	}
+	return sawReturn
 }
